@@ -47,7 +47,10 @@ FIRST = {
 SKIP_FUNCS = ("check", "__repr__", "__str__", "_repr_", "plot", "draw",
               "print_", "visualize", "show", "__hash__", "to_pytree",
               "from_pytree", "get_rand", "rand_", "random", "_get_rng",
-              "to_quimb", "from_quimb", "PEPS", "MPS", "TN_", "PEPO", "MPO")
+              "to_quimb", "from_quimb", "PEPS", "MPS", "TN_", "PEPO", "MPO",
+              # need quimb, which is not installed in this sandbox
+              "tfim_local_array", "ham_tfim_from_edges",
+              "ham_heisenberg_from_edges")
 # comparison / operator swaps
 CMP = {ast.Lt: "<=", ast.LtE: "<", ast.Gt: ">=", ast.GtE: ">", ast.Eq: "!=",
        ast.NotEq: "==", ast.In: "not in", ast.NotIn: "in", ast.Is: "is not",
@@ -196,6 +199,8 @@ def sites(fn, text):
                 if isinstance(t, ast.Name):
                     continue
             a, b = src.span(node)
+            if src.b[a:b].decode().startswith("warnings.warn"):
+                continue  # diagnostics only
             yield (node.lineno, f, "delete",
                    "statement -> pass: " + src.b[a:b].decode()[:70].replace(
                        "\n", " "), src.sub(a, b, "pass"))
@@ -291,6 +296,9 @@ def main():
                             rec["signatures"] = sigs
                             break
                     shutil.rmtree(f"{wt}/.found", ignore_errors=True)
+                    if rec["outcome"] == "survived" and any(
+                            rc not in (0, 1) for _, rc in rec["ran"]):
+                        rec["outcome"] = "harness-error"
             except subprocess.TimeoutExpired:
                 rec["outcome"] = "suite-timeout"
             finally:
